@@ -166,3 +166,201 @@ def unplaceholder(p: j2text.TPath, s: str) -> str:
     s = EV_PH.sub(rep, s)
     s = re.sub(r"(?<=[0-9}])(ULL|UL|LL|U|L)\b", "", s)
     return squash(s)
+
+
+# ---- the zero-cost predicate that selects the bulk-copy array paths ------------------------------------------------------
+def rule_zero_cost(ctx, px, rule_id: str):
+    """`is zero_cost_primitive` selects the branches that copy count * bit_length bits between the wire and the C array in
+    one piece.  That is the wire format only when an element's storage is exactly its wire width and byte order: the
+    predicate may admit nothing but standard-width integers and float32/64, and only for target_endianness == 'little'."""
+    import ast
+
+    from nvsa import pyfront
+
+    ctx.rule(
+        rule_id,
+        "is_zero_cost_primitive (selector of the bulk-copy array branches) returns true only under target_endianness == "
+        "'little', for integers only when bit_length is a standard width (storage width == wire width) and for floats only "
+        "when bit_length is 32 or 64; every other return is False",
+    )
+    f = px.func("nunavut.lang.c", "is_zero_cost_primitive")
+    ps = [a.arg for a in f.node.args.args]
+    if len(ps) < 2:
+        raise AnalysisError("anchor changed: is_zero_cost_primitive(language, t)")
+    t = ps[1]
+    asg = {}
+    for n in ast.walk(f.node):
+        if isinstance(n, ast.Assign) and len(n.targets) == 1 and isinstance(n.targets[0], ast.Name):
+            asg.setdefault(n.targets[0].id, []).append(n.value)
+
+    def resolve(e, depth=0):
+        if isinstance(e, ast.Name) and e.id in asg and len(asg[e.id]) == 1 and depth < 4:
+            return resolve(asg[e.id][0], depth + 1)
+        return e
+
+    def widths(e):
+        """set of bit lengths an expression over t.bit_length admits, None if not of that shape"""
+        e = resolve(e)
+        if isinstance(e, ast.Attribute) and e.attr == "standard_bit_length" and isinstance(e.value, ast.Name) and e.value.id == t:
+            return {8, 16, 32, 64}
+        if isinstance(e, ast.Compare) and len(e.ops) == 1 and isinstance(e.left, ast.Attribute) and e.left.attr == "bit_length" \
+                and isinstance(e.left.value, ast.Name) and e.left.value.id == t:
+            c = e.comparators[0]
+            if isinstance(e.ops[0], ast.In) and isinstance(c, (ast.Tuple, ast.List, ast.Set)) and all(isinstance(x, ast.Constant) and isinstance(x.value, int) for x in c.elts):
+                return {x.value for x in c.elts}
+            if isinstance(e.ops[0], ast.Eq) and isinstance(c, ast.Constant) and isinstance(c.value, int):
+                return {c.value}
+        if isinstance(e, ast.BoolOp) and isinstance(e.op, ast.Or):
+            parts = [widths(v) for v in e.values]
+            if all(p is not None for p in parts):
+                return set().union(*parts)
+        if isinstance(e, ast.BoolOp) and isinstance(e.op, ast.And):
+            parts = [widths(v) for v in e.values]
+            known = [p for p in parts if p is not None]
+            if known:
+                out = known[0]
+                for p in known[1:]:
+                    out = out & p
+                return out
+        if isinstance(e, ast.Constant) and e.value is False:
+            return set()
+        return None
+
+    little_gate = False
+    n = 0
+    for st, gd in pyfront.walk_guarded(f.node.body):
+        if not isinstance(st, ast.Return) or st.value is None:
+            continue
+        terms = pyfront.guard_terms(gd)
+        v = resolve(st.value)
+        is_false = isinstance(v, ast.Constant) and v.value is False
+        endian = [(e, p) for e, p in terms if "target_endianness" in e]
+        if endian and is_false and any(("!= 'little'" in e and p) or ("== 'little'" in e and not p) for e, p in endian):
+            little_gate = True
+            first_gate_line = st.lineno
+            continue
+        n += 1
+        kinds = [e for e, p in terms if p and e.startswith(f"isinstance({t},")]
+        w = widths(st.value)
+        where = kinds[-1] if kinds else "fallthrough"
+        if is_false:
+            ctx.ob(rule_id, f.module.rel, f"{f.short} :: return False [{where}]", True, "", st.lineno)
+        elif "IntegerType" in where:
+            ok = w is not None and w <= {8, 16, 32, 64}
+            ctx.ob(rule_id, f.module.rel, f"{f.short} :: integers are zero-cost only at standard widths", ok,
+                   "" if ok else f"`{ast.unparse(st.value)}` admits integers whose storage is wider than their wire representation "
+                   "(e.g. uint24 in uint32_t): the bulk copy then packs elements at the wrong stride", st.lineno)
+        elif "FloatType" in where:
+            ok = w is not None and w <= {32, 64}
+            ctx.ob(rule_id, f.module.rel, f"{f.short} :: floats are zero-cost only at 32/64 bits", ok,
+                   "" if ok else f"`{ast.unparse(st.value)}` admits float16 (stored as a 32-bit float)", st.lineno)
+        else:
+            ctx.ob(rule_id, f.module.rel, f"{f.short} :: no other kind is zero-cost [{where}]", False,
+                   f"`{ast.unparse(st.value)}` can be true for a type that is neither integer nor float", st.lineno)
+    ok = little_gate and all(r.lineno >= first_gate_line for r in ast.walk(f.node) if isinstance(r, ast.Return))
+    ctx.ob(rule_id, f.module.rel, f"{f.short} :: False unless target_endianness is 'little' (first statement)", ok,
+           "" if ok else "the bulk copy can be selected for a host whose byte order is not the wire order", f.node.lineno)
+    ctx.floor(rule_id, n, 2)
+
+
+# ---- the clamped temporary is the value that is written --------------------------------------------------------------
+def rule_sat_use(ctx, cd, rule_id: str):
+    ctx.rule(
+        rule_id,
+        "C/C++ serializers: on every template path where the field value is copied into a local temporary (the clamping "
+        "temporary of saturated fields), the raw field reference is not read again on that path - every later store or "
+        "support call takes the temporary (or a value derived from it)",
+    )
+    n = 0
+    for lang in ("c", "cpp"):
+        t = cd.tmpl(lang, "ser")
+        for name, m in cd.ts.macros(t).items():
+            if not name.startswith("_serialize_") or len(m.args) < 2:
+                continue
+            ref_param = m.args[1].name
+            try:
+                paths = cd.paths(lang, "ser", name)
+            except Exception:
+                continue
+            for p in paths:
+                text = cd.text(lang, p)
+                ref_ph = p.name_of(ref_param)
+                if ref_ph is None:
+                    continue
+                d = re.search(rf"\b(Pz\d+z) (Pz\d+z) = {ref_ph};", text)
+                if d is None:
+                    continue
+                n += 1
+                later = text[d.end():]
+                again = re.search(rf"{ref_ph}(?!\d)", later)
+                label = " & ".join(c.strip("()") for c, pol in p.conds if pol)[-90:] or "default"
+                ok = again is None
+                stmt = ""
+                if again is not None:
+                    a = later.rfind(";", 0, again.start()) + 1
+                    b = later.find(";", again.start())
+                    stmt = unplaceholder(p, later[a:b + 1].strip())
+                ctx.ob(rule_id, t.rel, f"{lang}: {name}: after `{p.xs_of(d.group(2))} = {ref_param}` the raw value is not used again [{label}]", ok,
+                       "" if ok else f"`{stmt}` reads the unclamped field although a saturated temporary was prepared: an out-of-range value is "
+                       "written truncated instead of saturated on this path", m.lineno)
+    ctx.floor(rule_id, n, 6)
+
+
+# ---- compile-time offset sets handed to element emitters ---------------------------------------------------------------
+def rule_offset_sets(ctx, cd, which: str, rule_id: str):
+    """The templates specialise emitted code on `offset` (a pydsdl BitLengthSet of all positions the code can run at):
+    alignment fast paths are chosen with offset.is_aligned_at_byte().  Inside an emitted element loop the set must cover
+    the position of *every* element."""
+    N = cd.N
+    ctx.rule(
+        rule_id,
+        "the offset set given to the per-element emitter inside an emitted element loop is `offset + <something that covers "
+        "every element index>`: element_type.bit_length_set.repeat_range(capacity - 1 or more) for fixed arrays, the array's "
+        "own bit_length_set (or repeat_range(capacity)) after the length prefix for variable arrays; never the entry offset "
+        "itself and never repeat(k) (which describes one index only)",
+    )
+    n = 0
+    stem = "_serialize_" if which == "ser" else "_deserialize_"
+    for lang in ("c", "cpp", "py"):
+        t = cd.tmpl(lang, which)
+        for name, m in cd.ts.macros(t).items():
+            if not name.startswith(stem) or not name.endswith("_array") or len(m.args) < 3:
+                continue
+            tp, off = m.args[0].name, m.args[-1].name
+            sets = {}
+            for a in m.find_all(N.Assign):
+                if isinstance(a.target, N.Name):
+                    sets[a.target.name] = a.node
+            loops_text = "".join(d.data for d in m.find_all(N.TemplateData))
+            for call in m.find_all(N.Call):
+                if not (isinstance(call.node, N.Name) and call.node.name == stem + "any"):
+                    continue
+                if len(call.args) < 3:
+                    continue
+                arg = call.args[-1]
+                n += 1
+                expr = sets.get(arg.name) if isinstance(arg, N.Name) else arg
+                shown = xs(expr) if expr is not None else xs(arg)
+                ok, why = False, ""
+                if isinstance(arg, N.Name) and arg.name == off:
+                    why = "the element emitter is specialised for the array's entry offset only: alignment fast paths are then taken for elements that are not aligned"
+                elif expr is None:
+                    why = f"`{xs(arg)}` is not assigned in the macro"
+                else:
+                    s_ = shown.replace(" ", "")
+                    cap = rf"{tp}\.capacity"
+                    pats = [
+                        rf"^\(?{off}\+{tp}\.element_type\.bit_length_set\.repeat_range\(\(?{cap}(-1)?\)?\)\)?$",
+                        rf"^\(?{off}\+{tp}\.bit_length_set\)?$",
+                    ]
+                    ok = any(re.match(p_, s_) for p_ in pats)
+                    if not ok:
+                        if ".repeat(" in s_:
+                            why = (f"`{shown}` describes the position of one element index only; every other element is emitted with the wrong "
+                                   "alignment specialisation (byte-aligned fast path at unaligned positions)")
+                        else:
+                            why = f"`{shown}` is not recognised as covering every element position"
+                    elif name.endswith("variable_length_array") and "repeat_range" in s_ and "length_field_type" not in s_ and f"{tp}.bit_length_set" not in s_:
+                        ok, why = False, f"`{shown}` ignores the length prefix that precedes the elements"
+                ctx.ob(rule_id, t.rel, f"{lang}: {name}: element emitter receives an offset set covering all elements", ok, "" if ok else why, call.lineno)
+    ctx.floor(rule_id, n, 4)
